@@ -43,13 +43,19 @@ META = {
             "every history the output is within outmin..outmax; a concrete 2x2 controller satisfies all hypotheses (gains "
             "computed in closed form; zero-sum case keeps the base gains; C13/Examples.v also shows by vm_compute on binary64 "
             "that the as-found a_pid_fuzzy_out_ stored NaN there and that an undersized block gives Fail ErrScratch).  NOT proved: monotone flanks of psig with slopes of "
-            "opposite sign; those 35 are over the reals.  Rounded arithmetic (10 further theorems, C13/MfRound.v: the same terms at "
+            "opposite sign; those 35 are over the reals.  Rounded arithmetic (12 further theorems, C13/MfRound.v, MfMid64.v: the same terms at "
             "Rnd_ops rnd / with exp and pow as oracles constrained by orc_ok, rnd monotone with rnd 0=0, rnd 1=1, rnd 2=2, odd - "
             "binary64 round-to-nearest-even by Flocq - overflow outside the model): tri/trap/lins/linz lie in [0,1], are exactly 1 "
             "on the core and 0 outside the support provided the divided difference does not flush to zero (holds for binary64 "
-            "parameters); s/z/pi lie in [0,1] under a midpoint condition on the parameters and have their literal core/support "
-            "values when the COMPUTED midpoint rnd(rnd(a+b)/2) separates a and b, and WITHOUT it are refuted in binary64 "
-            "(a=1+2^-52, b=1+2^-51: a_mf_s(b,a,b)=2; a=1+2^-51, b=1+3*2^-52: a_mf_z(a,a,b)=2, confirmed on the C); "
+            "parameters); s/z/pi are modelled as REPAIRED by proposed_fixes/C13-4 (x<=a and x>=b tested before the computed midpoint "
+            "rnd(rnd(a+b)/2)): exactly 1 on the core and 0 outside the support with no side condition, in [0,1] whenever the "
+            "executed quadratic branch squares a ratio with 2q^2<=1 (sz_in; needed: a coarse monotone rounding gives "
+            "a_mf_s(1;0,2)=2), which holds for ALL binary64 numbers x,a,b (Flocq proof: the ratio of the rounded differences is "
+            "at most 11/16, 2/3 attained at three consecutive doubles around a power of two) - so s, z, pi lie in [0,1] in binary64 "
+            "with correctly rounded pow unconditionally; the bodies AS FOUND (midpoint tested first; the same real functions "
+            "for a<=b) are refuted in binary64: a=1+2^-52, b=1+2^-51: a_mf_s(b,a,b)=2; a=1+2^-51, b=1+3*2^-52: a_mf_z(a,a,b)=2 "
+            "(confirmed on the unrepaired C; both inputs and their neighbours are in corpus/C13 and reach the oracle and the "
+            "bit-exact tie on every run); "
             "gauss/gauss2/gbell/sig/psig/dsig lie in [0,1] for any oracles with 0<=exp, exp<=1 on t<=0, exp monotone, pow>=0 "
             "(correctly rounded ones qualify; libm is assumed to); not/cap/cap_algebra/cap_bounded/cup/cup_bounded/equ map "
             "[0,1]^2 into [0,1], cup_algebra is >=0 (its bound <=1 is not proved).  Tie: the SAME Gallina terms instantiated "
@@ -58,11 +64,15 @@ META = {
             "functions and the dispatcher on breakpoints and their neighbouring doubles, the operators, table walks, and "
             "controller histories with the whole scratch block compared cell by cell after every step, including "
             "deliberately undersized blocks where model (Fail ErrScratch) and ASan must agree.  Search oracle: the property "
-            "evaluated on a real-libm build by an independent Python reference (exact rationals for the piecewise families).",
+            "evaluated on a real-libm build by an independent Python reference (exact rationals for the piecewise families; "
+            "for s/z/pi with parameters a few ulps apart, where x lies between the computed and the exact midpoint, the value of "
+            "either quadratic piece is accepted by the closeness test - the [0,1] test is unconditional).",
     "note": "Trusted: Coq kernel/vm_compute with primitive floats; the standard real-number axioms listed by Print "
             "Assumptions (classical reals, functional extensionality); the 'same term, different NumOps instance' argument; "
             "the hand transcription coq/C13/MfDefs.v + FuzzyDefs.v (on coq/C12/PidDefs.v), validated bit for bit on the "
-            "generated cases only.  Modelled, not verified: in the R instance pow is the real power function Rpow of "
+            "generated cases only (mf.c/fuzzy.c/fuzzy.h additionally by the regenerated-model tie theorems).  The rounded-"
+            "arithmetic theorems assume pow/exp correctly rounded or constrained by orc_ok, no overflow, and x, a, b binary64 "
+            "numbers for the unconditional s/z/pi range.  Modelled, not verified: in the R instance pow is the real power function Rpow of "
             "coq/C13/R13Ops.v (Rpower for a positive base, 0^y, integer powers of negative bases) and exp is Coq's exp - "
             "libm accuracy is not checked, the bit-exact run replaces exp/pow by substitutes; unsigned indices are nat (no "
             "2^32 wrap); the (int) truncation of table tags is modelled for finite values; NULL rule bases are None; the "
@@ -218,6 +228,33 @@ def _s(x, a, b):
     return 1 - 2 * ((b - x) / (b - a)) ** 2
 
 
+def sz_alt(t, x, p):
+    """a_mf_s / a_mf_z / a_mf_pi select the quadratic piece by comparing x with the COMPUTED midpoint (a+b)/2 (binary64).
+    When x lies between the computed and the exact midpoint (parameters a few ulps apart) the piece evaluated is the
+    other one: its exact value, else None.  Only the closeness test uses this; the range test [0,1] is unconditional."""
+    if t == 13:
+        if x < p[1]:
+            t, a, b = 11, p[0], p[1]
+        elif x > p[2]:
+            t, a, b = 12, p[2], p[3]
+        else:
+            return None
+    else:
+        a, b = p[0], p[1]
+    if not (a < x < b):
+        return None
+    cm = (a + b) / 2
+    if cm != cm or abs(cm) == math.inf:
+        return None
+    X, A, B = Fraction(x), Fraction(a), Fraction(b)
+    em, cm = (A + B) / 2, Fraction(cm)
+    if not (min(em, cm) <= X <= max(em, cm)):
+        return None
+    lo, up = 2 * ((X - A) / (B - A)) ** 2, 1 - 2 * ((B - X) / (B - A)) ** 2
+    v = up if X <= em else lo
+    return float(v if t == 11 else 1 - v)
+
+
 def mf_ref(t, x, p):
     """documented value (mf.h) of family t, with the core value 1 at degenerate shoulders; (value, on_core)"""
     if t == 1:
@@ -351,7 +388,9 @@ def oracle(d, out):
         if core and spec != 1.0:
             return "%s = %r, but x lies on the core where the value must be exactly 1" % (nm, spec)
         if not close(spec, ref):
-            return "%s = %r, the documented definition gives %r" % (nm, spec, ref)
+            alt = sz_alt(t, x, p) if t in (11, 12, 13) else None
+            if alt is None or not close(spec, alt):
+                return "%s = %r, the documented definition gives %r" % (nm, spec, ref)
         return None
     if k == "op":
         a, b, g = d["a"], d["b"], d["g"]
